@@ -156,6 +156,79 @@ func c06Check(p c06Prop, nl ap.NaturalLanguageValues, ci int) (ds []keyed) {
 	return ds
 }
 
+var c06ValuePairs = []string{"json-methods", "encoding/json", "gob-methods"}
+
+// c06ValueCheck round-trips a language list on its own through one of its own entry pairs.
+func c06ValueCheck(nl ap.NaturalLanguageValues, pair string) (ds []keyed) {
+	form := "single"
+	if len(nl) > 1 {
+		form = "map"
+	}
+	family := "json"
+	if pair == "gob-methods" {
+		family = "gob"
+	}
+	worst := "plain"
+	for _, e := range nl {
+		if c := c06TextClass(string(e.Value)); c != "plain" {
+			worst = c
+		}
+	}
+	key := func(effect string) string { return fmt.Sprintf("text %s value-%s %s %s %s", family, pair, form, worst, effect) }
+	x := append(ap.NaturalLanguageValues{}, nl...)
+	var got ap.NaturalLanguageValues
+	var b []byte
+	var err error
+	stage := "encode"
+	pi := evSafe(func() {
+		switch pair {
+		case "json-methods":
+			if b, err = x.MarshalJSON(); err == nil {
+				stage = "decode"
+				err = got.UnmarshalJSON(b)
+			}
+		case "encoding/json":
+			if b, err = json.Marshal(x); err == nil {
+				stage = "decode"
+				err = json.Unmarshal(b, &got)
+			}
+		case "gob-methods":
+			if b, err = x.GobEncode(); err == nil {
+				stage = "decode"
+				err = got.GobDecode(b)
+			}
+		}
+	})
+	if pi != nil {
+		return []keyed{{key("panic@" + pi.Frame), stage + ": " + pi.Value}}
+	}
+	if err != nil {
+		return []keyed{{key(stage + "-error"), fmt.Sprintf("%s error %v (encoded %s)", stage, err, clipBytes(b, 300))}}
+	}
+	pairs := func(n ap.NaturalLanguageValues, collapse bool) []string {
+		var out []string
+		for _, e := range n {
+			tag := string(e.Ref)
+			if collapse {
+				tag = "-"
+			}
+			out = append(out, fmt.Sprintf("%s=%q", tag, []byte(e.Value)))
+		}
+		sort.Strings(out)
+		return out
+	}
+	collapse := family == "json" && len(nl) == 1
+	w, g := pairs(nl, collapse), pairs(got, collapse)
+	if strings.Join(w, "|") != strings.Join(g, "|") {
+		effect := "text-altered"
+		if len(got) != len(nl) {
+			effect = "entry-lost"
+		}
+		ds = append(ds, keyed{key(effect), fmt.Sprintf("a language list on its own through %s: stored %v, came back %v (encoded %s)", pair, w, g, clipBytes(b, 300))})
+	}
+	return ds
+}
+
 var c06Texts = func() []string {
 	out := []string{
 		"x", " ", "a b", " leading", "trailing ", "line\nfeed", "tab\there", "cr\r", "nul\x00byte", "\x01\x02\x1f", "\x7f", `"`, `""`, `"quoted"`, `a"b`, `\`, `\\`, `\\\`, `a\b`, `\n`, `\t`, `\r`, `\"`, `\a`, `\f`, `\v`, `\u0041`,
@@ -177,6 +250,7 @@ func TestC06(t *testing.T) {
 	r.Rule("constants: ~95 valid UTF-8 texts (quotes, backslashes, escape look-alikes, control characters, JSON look-alikes, HTML, astral code points, separators) x name/summary/content/preferredUsername/source.content " +
 		"of Object, Actor, Activity, Collection and Link x {single untagged, single tagged, 2-language map} x 5 codec entry pairs; random: rapid.String and an escape-biased alphabet, length 1..200, every text-bearing " +
 		"property of every type, maps of 2..4 distinct tags. Oracle: text bytes after decode == bytes before encode, set of (tag,text) pairs preserved for maps (JSON: a lone tagged value may return untagged). " +
+		"value-pairs: the same texts and forms as a language list on its own through NaturalLanguageValues' MarshalJSON/UnmarshalJSON, encoding/json and GobEncode/GobDecode. " +
 		"non-trivial = text holds a backslash, quote, control or non-BMP character or is a JSON/escape look-alike; distinct by property + form + codec + text")
 	r.Assume("texts are non-empty valid UTF-8 (an entry with empty text is 'absent' under the documented normal form)")
 
@@ -218,6 +292,33 @@ func TestC06(t *testing.T) {
 		r.Exhaustive("constants", !r.Replaying())
 	}
 
+	// the property value on its own: a language list written and read back through its own MarshalJSON/UnmarshalJSON pair, through
+	// encoding/json, and through its GobEncode/GobDecode pair (how the name/summary/content of an object is stored when it is stored alone)
+	if r.WantLayer("value-pairs", true) {
+		total, done := 0, 0
+		for _, s := range c06Texts {
+			for fi, nl := range mkForms(s) {
+				for _, pair := range c06ValuePairs {
+					total++
+					cell := fmt.Sprintf("value form=%d %s %q", fi, pair, s)
+					if !r.WantCell(cell) {
+						continue
+					}
+					done++
+					ds := c06ValueCheck(nl, pair)
+					cls := c06TextClass(s)
+					r.Case(cell, cls != "plain", "value-pairs class="+cls, "value-pairs pair="+pair)
+					if done%199 == 0 {
+						r.Sample(cell, map[string]interface{}{"layer": "value-pairs", "pair": pair, "text": s, "form": fi})
+					}
+					reportAll(r, "value-pairs", cell, ds, cell)
+				}
+			}
+		}
+		r.Cells(total, done)
+		r.Exhaustive("value-pairs", !r.Replaying())
+	}
+
 	escAlpha := rapid.StringOfN(rapid.RuneFrom([]rune("\\\"/bfnrtuav0123456789{}[]:, \n\t\r\x00\x1f<>&'aZé😀\u2028")), 1, 60, -1)
 	textG := rapid.OneOf(rapid.SampledFrom(c06Texts), escAlpha, rapid.StringN(1, 200, -1))
 	tags := []ap.LangRef{"en", "fr", "de", "pt-BR", "zh-Hans", "en-GB"}
@@ -245,6 +346,8 @@ func TestC06(t *testing.T) {
 		}
 		ci := rapid.IntRange(0, len(c06Codecs)-1).Draw(t, "codec")
 		ds := c06Check(p, nl, ci)
+		vp := c06ValuePairs[rapid.IntRange(0, len(c06ValuePairs)-1).Draw(t, "valuepair")]
+		ds = append(ds, c06ValueCheck(nl, vp)...)
 		cls := "plain"
 		for _, e := range nl {
 			if c := c06TextClass(string(e.Value)); c != "plain" {
